@@ -7,7 +7,7 @@ From Coq Require Import String Ascii.
 From V.lib Require Import Base.
 From V.c19 Require Import C19BoxCodec C19BoxModel.
 From V.c19 Require Import C19Model C19Spec C19InvProofs C19RecModel C19RecProofs C19TreeModel C19TreeProofs
-  C19LeafProofs C19PrintParseProofs C19LeafPPProofs.
+  C19LeafProofs C19PrintParseProofs C19LeafPPProofs C19EsdsProofs.
 
 (* ------------------------------------------------------------------ helpers *)
 Ltac split_b H :=
@@ -153,7 +153,10 @@ Proof.
     destruct (hvcrec_of h) as [r|]; [|discriminate]. gets Hb.
     apply andb_true_iff in Hr. destruct Hr as [Hr Hct]. apply andb_true_iff in Hr. destruct Hr as [Hr Hlv].
     apply N.ltb_lt in Hlv. apply wf_entry_hevc; assumption.
-  - gets Hb. apply beq_eq in Hcfg. apply wf_entry_audio; try assumption; try reflexivity. auto.
+  - gets Hb. apply andb_true_iff in Hcfg. destruct Hcfg as [Hnm Hlen]. apply beq_eq in Hnm. apply N.leb_le in Hlen.
+    destruct (fits_pre _ _ Hf) as [_ Hfc]. cbn [forallb] in Hfc. apply andb_true_iff in Hfc. destruct Hfc as [Hfc _].
+    apply wf_audio; try assumption; auto.
+    eapply wf_leafb; [reflexivity|reflexivity|reflexivity|exact Hfc|]. apply lpp_esds; assumption.
   - gets Hb. apply beq_eq in Hcfg. apply wf_entry_audio; try assumption; try reflexivity. auto.
   - destruct (dec3_payload d) as [p|]; [|discriminate]. gets Hb. apply beq_eq in Hcfg.
     apply wf_entry_audio; try assumption; try reflexivity. auto.
